@@ -27,10 +27,10 @@ fn try_subscriber(p: &mut DcpsDomainParticipant) -> DdsResult<InstanceHandle> {
     p.create_user_defined_subscriber(QosKind::Default, None, sp::mask_from_bits(0), &rt())
 }
 fn new_publisher(p: &mut DcpsDomainParticipant) -> InstanceHandle {
-    try_publisher(p).expect("C35: publisher creation must succeed")
+    sp::must_ok!(try_publisher(p), "C35: publisher creation must succeed")
 }
 fn new_subscriber(p: &mut DcpsDomainParticipant) -> InstanceHandle {
-    try_subscriber(p).expect("C35: subscriber creation must succeed")
+    sp::must_ok!(try_subscriber(p), "C35: subscriber creation must succeed")
 }
 fn try_topic(p: &mut DcpsDomainParticipant, name: &str) -> DdsResult<InstanceHandle> {
     p.create_topic(
@@ -44,13 +44,7 @@ fn try_topic(p: &mut DcpsDomainParticipant, name: &str) -> DdsResult<InstanceHan
     )
 }
 fn new_topic(p: &mut DcpsDomainParticipant, name: &str) -> InstanceHandle {
-    try_topic(p, name).expect("C35: topic creation must succeed")
-}
-fn try_writer(p: &mut DcpsDomainParticipant, hp: &InstanceHandle) -> DdsResult<InstanceHandle> {
-    p.create_data_writer(hp, String::from("A"), QosKind::Default, None, sp::mask_from_bits(0), &rt())
-}
-fn try_reader(p: &mut DcpsDomainParticipant, hs: &InstanceHandle) -> DdsResult<InstanceHandle> {
-    p.create_data_reader(hs, String::from("A"), QosKind::Default, None, sp::mask_from_bits(0), &rt())
+    sp::must_ok!(try_topic(p, name), "C35: topic creation must succeed")
 }
 fn is_out_of_resources<T>(r: &DdsResult<T>) -> bool {
     matches!(r, Err(DdsError::OutOfResources))
@@ -62,7 +56,7 @@ fn is_out_of_resources<T>(r: &DdsResult<T>) -> bool {
 // @assume invariant I: the live publisher's counter byte c0 is below the current counter c
 // @enc DcpsDomainParticipant::create_user_defined_publisher
 #[kani::proof]
-#[kani::unwind(20)]
+#[kani::unwind(15)]
 #[kani::stub(critical_section::acquire, super::support_cs::cs_acquire)]
 #[kani::stub(critical_section::release, super::support_cs::cs_release)]
 fn c35_publisher_handle() {
@@ -99,7 +93,7 @@ fn c35_publisher_handle() {
 // @assume invariant I: the live subscriber's counter byte c0 is below the current counter c
 // @enc DcpsDomainParticipant::create_user_defined_subscriber
 #[kani::proof]
-#[kani::unwind(20)]
+#[kani::unwind(15)]
 #[kani::stub(critical_section::acquire, super::support_cs::cs_acquire)]
 #[kani::stub(critical_section::release, super::support_cs::cs_release)]
 fn c35_subscriber_handle() {
@@ -132,20 +126,20 @@ fn c35_subscriber_handle() {
     core::mem::forget(p);
 }
 
-fn topic_ctr(h: &InstanceHandle) -> u16 {
-    u16::from_ne_bytes([h[13], h[14]])
-}
 
 // @check props=C35 tier=quick
-// @desc create_topic and create_content_filtered_topic from ANY topic_counter with an earlier topic alive: never panic; Ok => handles pairwise distinct and the counter stays strictly above every handle's counter bytes; Err => OutOfResources, no topic added
+// @desc create_topic from ANY topic_counter with an earlier topic alive: never panics; Ok => handle distinct from the live topic's and the counter stays strictly above every handle's counter bytes; Err => OutOfResources, no topic added
 // @bounds one live topic; topic_counter symbolic over the full u16 range
 // @assume invariant I: the live topic's counter c0 is below the current counter c
+// @assume stub: TypeInformation::from(DynamicType) (MD5 of XTypes-serialized type objects, DynamicData) returns a fixed value; it does not influence handles or counters
+// @assume stub: alloc::fmt::format returns an empty String (error message texts are in no claim)
 // @enc DcpsDomainParticipant::create_topic
-// @enc DcpsDomainParticipant::create_content_filtered_topic
 #[kani::proof]
-#[kani::unwind(20)]
+#[kani::unwind(15)]
 #[kani::stub(critical_section::acquire, super::support_cs::cs_acquire)]
 #[kani::stub(critical_section::release, super::support_cs::cs_release)]
+#[kani::stub(<crate::xtypes::type_object::TypeInformation as core::convert::From<crate::xtypes::dynamic_type::DynamicType<'static>>>::from, super::support_participant::type_information_stub)]
+#[kani::stub(alloc::fmt::format, super::support_participant::fmt_format_stub)]
 fn c35_topic_handle() {
     let cap = sp::Capture::new();
     let mut p = sp::participant(&cap, 0);
@@ -157,27 +151,15 @@ fn c35_topic_handle() {
     p.domain_participant.topic_counter = c;
     let n_before = p.domain_participant.locally_created_topic_list.len();
     let r1 = try_topic(&mut p, "B");
-    let ph = *p.get_instance_handle();
     match &r1 {
         Ok(h1) => {
             assert!(h0 != *h1, "C35: topic handles distinct");
-            assert!(topic_ctr(h1) < p.domain_participant.topic_counter, "C35: topic counter strictly above the new topic's counter bytes (no wrap-around)");
-            let c_mid = p.domain_participant.topic_counter;
-            let r2 = p.create_content_filtered_topic(&ph, String::from("F"), String::from("A"), String::new(), alloc::vec::Vec::new());
-            match &r2 {
-                Ok(h2) => {
-                    assert!(*h1 != *h2 && h0 != *h2, "C35: content filtered topic handle distinct");
-                    assert!(topic_ctr(h2) < p.domain_participant.topic_counter, "C35: topic counter strictly above the filtered topic's counter bytes");
-                }
-                Err(_) => {
-                    assert!(is_out_of_resources(&r2), "C35: content filtered topic creation fails only with OutOfResources");
-                    assert!(p.domain_participant.topic_counter == c_mid, "C35: failed creation leaves the counter");
-                }
-            }
-            kani::cover!(r2.is_err(), "content filtered topic creation at the counter maximum");
+            assert!(*h1 != *p.get_instance_handle(), "C35: topic handle differs from participant handle");
+            assert!(p.domain_participant.topic_counter > c, "C35: topic counter strictly increases (no wrap-around onto live handles)");
         }
         Err(_) => {
             assert!(is_out_of_resources(&r1), "C35: topic creation fails only with OutOfResources");
+            assert!(c == u16::MAX, "C35: topic creation fails only at the counter maximum");
             assert!(p.domain_participant.locally_created_topic_list.len() == n_before, "C35: failed creation adds no topic");
         }
     }
@@ -187,44 +169,46 @@ fn c35_topic_handle() {
 }
 
 // @check props=C35 tier=quick
-// @desc create_data_writer / create_data_reader under a live publisher/subscriber from ANY counter value with an earlier writer/reader alive: never panic; Ok => handles distinct from each other, from the earlier ones and from their parents, counter strictly increases; Err => OutOfResources
-// @bounds one live writer and reader; writer_counter/reader_counter symbolic over the full u16 range
-// @assume invariant I: the live writer's/reader's counter c0 is below the current counter c
-// @enc DcpsDomainParticipant::create_data_writer
-// @enc DcpsDomainParticipant::create_data_reader
+// @desc create_content_filtered_topic (shares topic_counter with create_topic) from ANY counter value with the related topic alive: never panics; Ok => handle distinct from the live topic's, counter strictly increases; Err => OutOfResources and the counter is unchanged
+// @bounds one live topic; topic_counter symbolic over the full u16 range
+// @assume invariant I: the live topic's counter c0 is below the current counter c
+// @assume stub: TypeInformation::from(DynamicType) returns a fixed value; stub: alloc::fmt::format returns an empty String
+// @enc DcpsDomainParticipant::create_content_filtered_topic
 #[kani::proof]
-#[kani::unwind(20)]
+#[kani::unwind(15)]
 #[kani::stub(critical_section::acquire, super::support_cs::cs_acquire)]
 #[kani::stub(critical_section::release, super::support_cs::cs_release)]
-fn c35_endpoint_handle() {
+#[kani::stub(<crate::xtypes::type_object::TypeInformation as core::convert::From<crate::xtypes::dynamic_type::DynamicType<'static>>>::from, super::support_participant::type_information_stub)]
+#[kani::stub(alloc::fmt::format, super::support_participant::fmt_format_stub)]
+fn c35_filtered_topic_handle() {
     let cap = sp::Capture::new();
     let mut p = sp::participant(&cap, 0);
-    let _t = new_topic(&mut p, "A");
-    let hp = new_publisher(&mut p);
-    let hs = new_subscriber(&mut p);
     let c0: u16 = kani::any();
     let c: u16 = kani::any();
     kani::assume(c0 < c);
-    p.writer_counter = c0;
-    p.reader_counter = c0;
-    let w0 = try_writer(&mut p, &hp).expect("C35: writer creation");
-    let r0 = try_reader(&mut p, &hs).expect("C35: reader creation");
-    p.writer_counter = c;
-    p.reader_counter = c;
-    let w1 = try_writer(&mut p, &hp);
-    let r1 = try_reader(&mut p, &hs);
-    match (&w1, &r1) {
-        (Ok(w1), Ok(r1)) => {
-            assert!(w0 != *w1 && r0 != *r1, "C35: endpoint handles distinct per kind");
-            assert!(*w1 != *r1 && *w1 != hp && *r1 != hs && *w1 != hs && *r1 != hp && *w1 != r0 && *r1 != w0, "C35: endpoint handles distinct from other entities");
-            assert!(p.writer_counter > c && p.reader_counter > c, "C35: endpoint counters strictly increase (no wrap-around onto live handles)");
+    p.domain_participant.topic_counter = c0;
+    let h0 = new_topic(&mut p, "A");
+    p.domain_participant.topic_counter = c;
+    let ph = *p.get_instance_handle();
+    let r2 = p.create_content_filtered_topic(&ph, String::from("F"), String::from("A"), String::new(), alloc::vec::Vec::new());
+    match &r2 {
+        Ok(h2) => {
+            assert!(h0 != *h2, "C35: content filtered topic handle distinct from the live topic's");
+            assert!(p.domain_participant.topic_counter > c, "C35: topic counter strictly increases (filtered topic)");
         }
-        _ => {
-            assert!(is_out_of_resources(&w1) && is_out_of_resources(&r1), "C35: endpoint creation fails only with OutOfResources");
-            assert!(c == u16::MAX, "C35: endpoint creation fails only at the counter maximum");
+        Err(_) => {
+            assert!(is_out_of_resources(&r2), "C35: content filtered topic creation fails only with OutOfResources");
+            assert!(c == u16::MAX, "C35: content filtered topic creation fails only at the counter maximum");
+            assert!(p.domain_participant.topic_counter == c, "C35: failed creation leaves the counter");
         }
     }
-    kani::cover!(c > 255 && w1.is_ok(), "second counter byte used");
-    kani::cover!(c == u16::MAX, "counter at its maximum reachable");
+    kani::cover!(r2.is_ok(), "filtered topic created");
+    kani::cover!(r2.is_err(), "filtered topic creation at the counter maximum");
     core::mem::forget(p);
 }
+
+// create_data_writer / create_data_reader (writer_counter / reader_counter) are NOT decided: one such call on a
+// participant (topic + publisher + writer, symbolic counter) did not fit — Symex 24 s, 1618 VCCs after
+// simplification, then "Solver ran out of memory during propositional reduction" at 26 GB / 450 s — even with the
+// announce_data_writer, TypeInformation::from, TopicKind::from and alloc::fmt::format stubs and a global unwind of 4.
+// See DESIGN.md (C35) — stated as outside the claim.
